@@ -177,6 +177,11 @@ def run_kani_group(prop, grp, tier, obligations, undecided, failures, checker_cm
                     vio.append(h["unwind_obligation"])
                     continue
                 (vio if vlib.classify_failed_check(d) == "violation" else und).append(d)
+            if any("missing definition" in d for d in und) and vio:
+                # the code under contract called a foreign function that neither the crate nor the C model defines:
+                # CBMC lets it return anything, so every other failed check of this harness may be an artefact
+                und.extend("possibly an artefact of the unmodelled foreign function: " + d for d in vio)
+                vio = []
             if r["status"] == "SUCCESSFUL" and not covers_ok:
                 und.append(f"vacuity guard: only {r['covers_sat']} of {r['covers']} cover properties satisfied")
             if r["status"] == "FAILED" and not failed_descs:
